@@ -357,7 +357,10 @@ def _jsonable(v):
         if isinstance(v, int) and abs(v) > 2 ** 62:
             return {"__int__": hex(v)}
         if isinstance(v, str):
-            return v.encode("utf-8", "surrogateescape").decode("utf-8", "replace")
+            if any("\ud800" <= c <= "\udfff" for c in v):
+                # unpaired surrogates (escaped bytes, or text that only a JSON escape can carry): kept exactly, as UTF-16 code units
+                return {"__utf16__": v.encode("utf-16-le", "surrogatepass").hex()}
+            return v
         return v
     return repr(v)
 
@@ -368,6 +371,8 @@ def unjson(v):
             return bytes.fromhex(v["__bytes__"])
         if set(v) == {"__int__"}:
             return int(v["__int__"], 16)
+        if set(v) == {"__utf16__"}:
+            return bytes.fromhex(v["__utf16__"]).decode("utf-16-le", "surrogatepass")
         return {k: unjson(x) for k, x in v.items()}
     if isinstance(v, list):
         return [unjson(x) for x in v]
